@@ -11,6 +11,18 @@ CHECKS = {
                   'expected vector; counterexamples are replayed natively through the formatter and through Parser::add_content with the recorder hook.',
              note='Trusted: the MIR dump of the nightly toolchain equals what the stable build compiles; axioms for <[String]>::join / Index<Range>; Display of String; '
                   'how lalrpop fills the expected vector.'),
+ 'C17': dict(engine='M (nightly MIR -> z3 strings) + native replay', technique='symbolic execution of the real MIR, z3 sequence theory over unbounded strings',
+             design='4/C17', category='model_checking',
+             text='The MIR of Symbol::get_qualified_name / get_name, Aidl::get_key, Item::get_name, Import::get_qualified_name and ConstOwner::get_name of the current tree is '
+                  'executed symbolically with every name an unconstrained string; one z3 query per symbol variant and path shows result = reference written from the property '
+                  '(package.Name = key, Owner::member, dotted names, stored identifiers). Counterexamples are replayed on a four-file project through the public API.',
+             note='Trusted: nightly MIR = what stable compiles; format_args! template decoding (self-checked); Display of String is identity. Not decided: that the resolver stores the right key in type references (C05).'),
+ 'C11': dict(engine='M (nightly MIR -> z3 integers; CFG path enumeration) + native replay', technique='symbolic execution of the real MIR, z3 over unbounded integers',
+             design='4/C11', category='model_checking',
+             text='Partial: z3 decides over unbounded positions that the key of the final sort in validate refines (line, column) order, so diagnostics at distinct start positions '
+                  'leave validate in ascending order for every hash-map iteration order; every CFG path of the per-file closure that runs a validation step is shown to sort afterwards '
+                  'and not to touch the vector again. Equality of trees/diagnostic sets across runs is outside the claim (needs HashMap under the solver).',
+             note='Trusted: slice::sort_by_key is a stable sort; offsets and (line, column) are co-monotone if the key uses offsets.'),
 }
 
 NA = {
